@@ -266,7 +266,8 @@ def rule_refs(ctx):
                     function=q, line=f.lineno)
             continue
         c = calls[0]
-        first = c.args[0] if c.args else None
+        from ..util import bound_arg as _ba
+        first = _ba(ctx, f, c, 0, 'nodes')
         ok = False
         if isinstance(first, ast.Name):
             # the set must be fed with the results of <ref>.add(self.dsp, ...)
@@ -291,12 +292,15 @@ def rule_refs(ctx):
                     line=c.lineno)
     # from_dict compiles the cells with the very table _update_refs filled
     f = p.func(EXCEL, 'ExcelModel.from_dict')
+    from ..util import bound_arg
     upd = [n for n in own_nodes(f) if isinstance(n, ast.Call)
-           and call_name(n) == '_update_refs' and len(n.args) >= 2]
+           and call_name(n) == '_update_refs' and
+           bound_arg(ctx, f, n, 1, 'refs') is not None]
     comp = [n for n in own_nodes(f) if isinstance(n, ast.Call)
             and call_name(n) == 'compile' and kwarg(n, 'references') is not None]
-    if upd and comp and isinstance(upd[0].args[1], ast.Name):
-        table = upd[0].args[1].id
+    if upd and comp and isinstance(bound_arg(ctx, f, upd[0], 1, 'refs'),
+                                   ast.Name):
+        table = bound_arg(ctx, f, upd[0], 1, 'refs').id
         from ..util import assigned_value
         for c in comp:
             rr.instances += 1
